@@ -624,6 +624,10 @@ def check(ctx):
                 derive_rules.rule_keyframe_api(ctx, s_)
     except ImportError:
         ctx.notes.append("R5 (derive wiring) not built yet")
+    # "with and without a substituted start value", "all times": which position and which override flag the evaluation is
+    # handed before the start, while active and after the end (C10/R1)
+    from rules import c10
+    c10.rules_prepare_frame(ctx, "R7")
     # "otherwise the timeline's default easing": the easing given to the builder reaches the arguments the generated build
     # hands to every sub-timeline (setter -> configuration -> builder arguments; C03/R5)
     from rules import c03, timescale_table as TT
